@@ -32,6 +32,7 @@ def correspond(res, tier, seed):
         raise RuntimeError('harness produced only %d cases:\n%s' % (len(reqs), out[-2000:]))
     exp = core.oracle(reqs)
     seen = set()
+    mism = []
     for r, e, o in zip(reqs, exp, obs):
         res.evaluations += 1
         res.count(r.split(' ')[0])
@@ -42,7 +43,10 @@ def correspond(res, tier, seed):
                 res.distinct.add(r)
         if e != o:
             res.count('mismatch')
-            report(res, r, e, o)
+            mism.append((r, e, o))
+    # shortest failing command of each class first: it becomes the replay
+    for r, e, o in sorted(mism, key=lambda m: (m[0].count('null'), len(m[0]), m[0])):
+        report(res, r, e, o)
     res.exhaustive = False
     idx = sorted({0, len(reqs) // 5, len(reqs) // 3, len(reqs) // 2, 2 * len(reqs) // 3, len(reqs) - 30, len(reqs) - 1})
     res.samples = [dict(request=reqs[i], oracle=exp[i], observed=obs[i]) for i in idx if 0 <= i < len(reqs)]
@@ -71,9 +75,33 @@ def shape(r):
     return ' '.join(out)
 
 
+ID_RES = ('ROSpecID', 'AccessSpecID')
+
+
+def defect_class(r, e, o):
+    """stable key for the recurring ways in which a handler can leave the documented mapping"""
+    toks = r.split(' ')
+    verb, ofirst = toks[0], o.split(' ')[0]
+    names = [t[2:] for t in toks if t.startswith('r:')]
+    params = [t for t in toks if t.startswith('p:')]
+    if verb == 'cmd-read' and e == 'reject' and ofirst == 'reject-after':
+        return 'read:requests-sent-before-unknown-resource-rejected'
+    if verb == 'cmd-write' and ofirst == 'reject' and e.startswith('req ') and names:
+        return 'write:%s:documented-command-rejected' % names[0]
+    if verb == 'cmd-write' and e == 'reject' and o.startswith('req 1023 ') and names and names[0] in ('ReaderConfig', 'ROSpec', 'AccessSpec') + ID_RES:
+        return 'write:%s:handled-as-custom-message' % names[0]
+    if verb == 'cmd-write' and e == 'reject' and ofirst == 'req' and names:
+        if len(names) >= 2 and names[0] not in ID_RES and len(names) == len(params):
+            return 'write:extra-resources-silently-ignored'
+        if len(names) == 1 and len(params) == 1 and params[0].endswith('=null'):
+            return 'write:null-object-sent-as-empty-message'
+    return None
+
+
 def report(res, r, e, o):
     verb = r.split(' ')[0]
     ofirst = o.split(' ')[0]
+    cls = defect_class(r, e, o)
     if verb == 'enforce-ka':
         res.violation('ka:' + r, 'SetReaderConfig with KeepAliveSpec %s left the service with KeepAliveSpec %s, the property demands %s' % (r.split(' ')[-1], o, e),
                       'input', True, case=[r], expected=[e], observed=[o])
@@ -86,7 +114,7 @@ def report(res, r, e, o):
         what = '%s: documented command was rejected; expected %s' % (r, e)
     else:
         what = '%s: wrong LLRP request: observed %r, documented/model %r' % (r, o, e)
-    res.violation('cmd:' + shape(r)[:200], what, 'input', True, case=[r], expected=[e], observed=[o])
+    res.violation(cls or ('cmd:' + shape(r)[:200]), what, 'input', True, case=[r], expected=[e], observed=[o])
 
 
 def explain(res, name, reason):
